@@ -3,7 +3,7 @@ spec/TtxSearch.tla (walk of _vbi_cache_foreach_page one iteration per action + s
 MC: Exact/Sound/BoundedWalk invariants + Termination (liveness, fair spec)
 GEN: every terminal state of the bounded model -> API-level behaviour with predicted results
 REPLAY: harness/drv_search.c on the real library, populations transmitted through vbi_decode()."""
-import json, os, random, collections
+import json, shutil, os, random, collections
 from vlib import tlc, build, core
 
 MANIFEST = dict(
@@ -33,9 +33,9 @@ def gen(ctx, cfg, timeout):
     return r.tr
 
 
-def script_for(beh, smap, bid, anysub):
-    """line protocol for one behaviour"""
-    lines = ["B %s" % bid]
+def script_for(beh, smap, bid, anysub, layout=0):
+    """line protocol for one behaviour; layout = presentation of the pages (enlarged text on rows without occurrence)"""
+    lines = ["B %s" % bid] + (["Y %d" % layout] if layout else [])
     for (p, s, occ) in beh["pop0"]:
         if occ >= 0:
             lines.append("P %x %x %d" % (smap[p - 1], s, occ))
@@ -50,7 +50,7 @@ def script_for(beh, smap, bid, anysub):
     return lines
 
 
-def expected(beh, smap):
+def expected(beh, smap, layout=0):
     out = []
     for c in beh["calls"]:
         if c["r"] == "update":
@@ -58,7 +58,8 @@ def expected(beh, smap):
         e = dict(r=STATUS[c["r"]])
         if c["r"] == "success":
             o = c["occ"] - 1
-            e.update(pg=smap[c["pg"] - 1], sub=c["sub"], hl=[[2 + 5 * o, 4 + 3 * o + i] for i in range(3)])
+            e.update(pg=smap[c["pg"] - 1], sub=c["sub"],
+                     hl=[[1 + 5 * o, 3 * o + i] for i in range(3)] if layout == 5 else [[3 + 5 * o, 4 + 3 * o + i] for i in range(3)])
         out.append(e)
     return out
 
@@ -89,8 +90,15 @@ def run_batch(ctx, drv, items):
             rr = res.get(bid, [])
             if bid == hang_id:
                 k = len([x for x in rr if "r" in x])
+                # confirm on its own before reporting (DESIGN 3.6: a verdict must be reproducible)
+                rc2, out2, err2, to2 = core.run_driver([drv], "\n".join(lines) + "\n", timeout=120, env=build.san_env())
+                if '"hang":true' not in out2 and not to2:
+                    ctx.notes.append("watchdog hit for %s was not reproducible (machine load); behaviour replayed again" % bid)
+                    done = idx          # this behaviour is run again with the rest
+                    hangs += 1
+                    break
                 ctx.violate("replay", "hang:vbi_search_next",
-                            "vbi_search_next did not return within 2 s (call %d of the behaviour)" % (k + 1),
+                            "vbi_search_next did not return within 4 s of CPU time (call %d of the behaviour)" % (k + 1),
                             dict(script=lines, expected=exp, behaviour=beh))
                 ctx.count_case(beh)
                 done = idx + 1
@@ -134,57 +142,101 @@ def classify(beh, exp, got, i):
     return "diverge:%s:%s" % ("fwd" if d > 0 else "rev", what)
 
 
+# ---- pattern language: the ure string handed to vbi_search_new and its transcription as a TtxMatch AST (TLA+ text)
+def _chr(c): return '[k |-> "chr", c |-> %d]' % ord(c)
+def _cat(*a): return '[k |-> "cat", a |-> <<%s>>]' % ", ".join(a)
+def _alt(*a): return '[k |-> "alt", a |-> <<%s>>]' % ", ".join(a)
+def _cls(chars): return '[k |-> "cls", s |-> {%s}]' % ", ".join(str(ord(c)) for c in chars)
+def _un(k, p): return '[k |-> "%s", p |-> %s]' % (k, p)
+def _lit(s): return _cat(*[_chr(c) for c in s])
+_ANY, _BOL, _EOL = '[k |-> "any"]', '[k |-> "bol"]', '[k |-> "eol"]'
+DIGITS = "0123456789"
+PATS = [  # (ure pattern, casefold, regexp, AST)
+    ("ZQX", 0, 0, _lit("ZQX")), ("zqx", 1, 0, _lit("zqx")), ("zqx", 0, 0, _lit("zqx")),
+    ("Z.X", 0, 1, _cat(_chr("Z"), _ANY, _chr("X"))), ("ZQ*X", 0, 1, _cat(_chr("Z"), _un("star", _chr("Q")), _chr("X"))),
+    ("(AB|CD)E", 0, 1, _cat(_alt(_lit("AB"), _lit("CD")), _chr("E"))), ("[K-M]9", 0, 1, _cat(_cls("KLM"), _chr("9"))),
+    ("Q+R", 0, 1, _cat(_un("plus", _chr("Q")), _chr("R"))), ("a.c", 1, 1, _cat(_chr("a"), _ANY, _chr("c"))),
+    ("X *$", 0, 1, _cat(_chr("X"), _un("star", _chr(" ")), _EOL)), ("^rowd", 0, 1, _cat(_BOL, _lit("rowd"))),
+    ("1+1", 0, 0, _lit("1+1")), ("A|B", 0, 0, _lit("A|B")), ("N?OP", 0, 1, _cat(_un("opt", _chr("N")), _lit("OP"))),
+    ("x[0-9][0-9]y", 0, 1, _cat(_chr("x"), _cls(DIGITS), _cls(DIGITS), _chr("y"))),
+    # occurrences behind a false start: the matcher has to come back to the character after the failed attempt
+    ("ab", 0, 0, _lit("ab")), ("abac", 0, 0, _lit("abac")), ("aab", 0, 1, _lit("aab")), ("ZQ+X", 0, 1, _cat(_chr("Z"), _un("plus", _chr("Q")), _chr("X"))),
+    ("(ab)+c", 0, 1, _cat(_un("plus", _lit("ab")), _chr("c"))),
+    # an attempt that goes on behind a complete match and then fails: the complete match counts
+    ("AB(CD)?", 0, 1, _cat(_lit("AB"), _un("opt", _lit("CD")))), ("A(BC)*", 0, 1, _cat(_chr("A"), _un("star", _lit("BC")))),
+    ("AB|ABCD", 0, 1, _alt(_lit("AB"), _lit("ABCD"))),
+]
+WORDS = ["ZQX", "zqx", "ZX", "ZQQQX", "ABE", "CDE", "L9", "QQR", "abc", "AxC", "1+1", "A|B", "OP", "NOP", "x42y", "x4y", "hello", "Z X", "X",
+         "ZZQX", "aab", "aaab", "ababac", "abab", "QQQR", "ZQZQX", "ZQQZQQX", "ababc", "xaby", "AABE", "ABCX", "ABC", "ABCBX", "ABCD"]
+
+
+def row_text(row, w):
+    return ("row" + chr(ord('a') + row) + (w if row == 3 else "")).ljust(40)
+
+
+def eval_matchlib(ctx):
+    """TLC evaluates spec/TtxMatch.tla on every (pattern, row): -> {(pattern index, row text): (hit, starts)}"""
+    rows = sorted({row_text(r, "") for r in range(1, 24)} | {row_text(3, w) for w in WORDS})
+    d = os.path.join(ctx.scratch, "match")
+    os.makedirs(d, exist_ok=True)
+    for f in ("TtxMatch.tla", "Eval_TtxMatch.tla", "Eval_TtxMatch.cfg"):
+        shutil.copy(os.path.join(tlc.SPEC, f), d)
+    pats = ",\n  ".join("[cf |-> %s, p |-> %s]" % ("TRUE" if cf else "FALSE", ast) for _, cf, _, ast in PATS)
+    rws = ",\n  ".join("<<" + ", ".join(str(ord(c)) for c in r) + ">>" for r in rows)
+    open(os.path.join(d, "MatchLib.tla"), "w").write("---- MODULE MatchLib ----\nEXTENDS TtxMatch\nPats == <<\n  %s >>\nRows == <<\n  %s >>\n====\n" % (pats, rws))
+    r = tlc.run("Eval_TtxMatch", "Eval_TtxMatch", timeout=900, workers=1, collect_tr=True, cwd=d, heap="4g")
+    ctx.add_mc(r, "EVAL TtxMatch (pattern x row library)")
+    tab = {(e["p"] - 1, rows[e["r"] - 1]): (e["hit"], sorted(e["starts"])) for e in r.tr}
+    if len(tab) != len(PATS) * len(rows):
+        raise tlc.ToolFailure("pattern library evaluation incomplete: %d of %d" % (len(tab), len(PATS) * len(rows)))
+    return tab
+
+
 def regex_pass(ctx, drv):
-    """independent matcher: Python's re on the same rows (pattern alphabet shared by ure and re)."""
-    import re
+    """independent matcher = spec/TtxMatch.tla evaluated by TLC on the rows the driver transmits"""
+    tab = eval_matchlib(ctx)
     rnd = random.Random(ctx.seed)
-    pats = [("ZQX", 0, 0), ("zqx", 1, 0), ("zqx", 0, 0), ("Z.X", 0, 1), ("ZQ*X", 0, 1), ("(AB|CD)E", 0, 1), ("[K-M]9", 0, 1),
-            ("Q+R", 0, 1), ("a.c", 1, 1), ("X *$", 0, 1), ("^rowd", 0, 1), ("1+1", 0, 0), ("A|B", 0, 0), ("N?OP", 0, 1), ("x[0-9][0-9]y", 0, 1)]
-    words = ["ZQX", "zqx", "ZX", "ZQQQX", "ABE", "CDE", "L9", "QQR", "abc", "AxC", "1+1", "A|B", "OP", "NOP", "x42y", "x4y", "hello", "Z X", "X"]
-    items, meta = [], {}
-    n = 40 if ctx.tier == "quick" else 400
+    items = []
+    n = 120 if ctx.tier == "quick" else 1500
     for t in range(n):
-        pat, cf, rx = rnd.choice(pats)
-        pages = []
-        for pg in (0x100, 0x200, 0x300):
-            w = rnd.choice(words)
-            pages.append((pg, w))
+        pi = rnd.randrange(len(PATS)) if t >= len(PATS) else t
+        pat, cf, rx, _ = PATS[pi]
+        pages = [(pg, rnd.choice(WORDS)) for pg in (0x100, 0x200, 0x300)]
         bid = "rx%d" % t
         lines = ["B " + bid] + ["P %x 0 0 %s" % (pg, w) for pg, w in pages] + ["N 100 0 %s %d %d" % (pat.replace(" ", "_"), cf, rx)] + ["S 1"] * 4 + ["E"]
-        # reference: row 3 text is "rowd" + word (columns 4..), other rows "row?" only; the search sees rows 1..23
-        exp = []
+        # the search sees rows 1..23; row 3 carries the word
+        exp, first = [], {}
         for pg, w in pages:
-            rows = []
-            for row in range(1, 24):
-                text = "row" + chr(ord('a') + row) + (w if row == 3 else "")
-                rows.append(text.ljust(40))
-            flags = re.I if cf else 0
-            rpat = pat if rx else re.escape(pat)
-            hit = any(re.search(rpat, rt, flags) for rt in rows)
-            if hit:
+            hits = [(row, tab[(pi, row_text(row, w))]) for row in range(1, 24)]
+            hits = [(row, h[1]) for row, h in hits if h[0]]
+            if hits:
                 exp.append(pg)
-        items.append((bid, lines, exp, pages, (pat, cf, rx)))
+                first[pg] = [hits[0][0], hits[0][1][0] - 1]          # row and column of the first occurrence in reading order
+        items.append((bid, lines, exp, pages, (pat, cf, rx), first))
     text = "\n".join("\n".join(it[1]) for it in items) + "\n"
-    rc, out, err, to = core.run_driver([drv], text, timeout=300, env=build.san_env())
+    rc, out, err, to = core.run_driver([drv], text, timeout=600, env=build.san_env())
     res = collections.defaultdict(list)
     for ln in out.split("\n"):
         if ln.startswith("{"):
             o = json.loads(ln); res[o["id"]].append(o)
-    for bid, lines, exp, pages, p in items:
+    for bid, lines, exp, pages, p, first in items:
         rr = res.get(bid, [])
         if rr and rr[0].get("new") == 0:
             ctx.violate("regex", "regex:compile-failed:%s" % p[0], "vbi_search_new refused pattern %r" % (p,), dict(script=lines))
             continue
-        got = []
+        got, hl = [], {}
         for x in rr:
             if x.get("r") == 1 and x["pg"] not in got:
-                got.append(x["pg"])
-        ctx.count_case([p, pages])
-        if got == exp:
-            ctx.validated()
-        else:
-            ctx.violate("regex", "regex:%s cf=%d rx=%d" % p, "pattern %r pages %r: independent matcher finds %s, library %s" % (p, pages, [hex(x) for x in exp], [hex(x) for x in got]),
+                got.append(x["pg"]); hl[x["pg"]] = x["hl"][0] if x.get("hl") else None
+        ctx.count_case([p, pages], nontrivial=bool(exp))
+        if got != exp:
+            ctx.violate("regex", "regex:%s cf=%d rx=%d" % p, "pattern %r pages %r: specification TtxMatch finds %s, library %s" % (p, pages, [hex(x) for x in exp], [hex(x) for x in got]),
                         dict(script=lines, expected=exp, got=got))
+        elif any(hl[pg] != first[pg] for pg in exp):
+            ctx.violate("regex", "regex-highlight:%s cf=%d rx=%d" % p, "pattern %r pages %r: first occurrence at %s, highlight begins at %s" % (p, pages, first, hl),
+                        dict(script=lines, expected=first, got=hl))
+        else:
+            ctx.validated()
     core.report_sanitizers(ctx, err, in_scope=False)
 
 
@@ -215,7 +267,11 @@ def run(ctx):
         for i, b in enumerate(behs):
             smap = SLOTMAPS[np_][rnd.randrange(len(SLOTMAPS[np_]))]
             bid = "%s.%d" % (cfg[-3:], i)
-            items.append((bid, script_for(b, smap, bid, anysub), expected(b, smap), b, smap))
+            # concretisation: the presentation of the rows that carry no occurrence is free (plain / double height / double size /
+            # double width text above or between the occurrences); the expected result does not depend on it
+            # layout 5 moves the occurrences so that the first one starts in the very first cell searched (row 1, column 0)
+            lay = rnd.choice([0, 0, 1, 2, 3, 4, 5, 5])
+            items.append((bid, script_for(b, smap, bid, anysub, layout=lay), expected(b, smap, lay), b, smap))
         if items:
             ctx.sample(dict(script=items[len(items) // 2][1], expected=items[len(items) // 2][2]))
         # 16 parallel driver processes
